@@ -10,7 +10,7 @@ ROOT = os.path.dirname(os.path.dirname(os.path.abspath(__file__)))
 P = {
  "C01": (True, "model_checking", "6 C01",
          "TLA+ functional spec (Codec.tla) checked by TLC over the bounded type/value universe; every TLC-enumerated behaviour replayed into the library",
-         "TLC proves RoundTrip on the format for every type expression of depth <= 2 (quick) / 3 (thorough) over the full built-in vocabulary and every boundary value; each enumerated (type, value) is replayed: real encode, real decode, compare with the model value. Exhaustive within the stated bounds. Size axis (MC_Long: values on both sides of every var-int width change incl. 2^16) and depth / count axis (MC_Deep: recursive declarations 64 .. 300 (1100) levels, 1024 / 1025 (5000) smart-pointer elements) included.",
+         "TLC proves RoundTrip on the format for every type expression of depth <= 2 (quick) / 3 (thorough) over the full built-in vocabulary and every boundary value; each enumerated (type, value) is replayed: real encode, real decode, compare with the model value. Exhaustive within the stated bounds. Size axis (MC_Long: values on both sides of every var-int width change incl. 2^16) and depth / count axis (MC_Deep: recursive declarations 64 .. 300 (400) levels, 1024 / 1025 (2000) smart-pointer elements) included.",
          "bounds of spec/Universe.tla; glue dv::model trusted; TZ=UTC"),
  "C04": (True, "model_checking", "6 C04",
          "TLA+ reference encoder/decoder as the format definition; byte-for-byte replay of TLC-enumerated encodings (all legal forms) into the library",
